@@ -22,6 +22,22 @@ CLAIMS = {
         "per quick run.",
    technique="Lean 4 proof (sheet names, wrapper cache) + relational testing across input channels + correspondence",
    design="§6 C16"),
+ "C10": dict(
+   text="Proof (Lean 4) about the model of the zone tree synthesised from stream labels and of the upward collection of streams "
+        "(flat list of node paths for the nested dictionaries; code-shaped counters and renaming loop), for EVERY list of labels "
+        "- any depth, labels that are prefixes or suffixes of one another or equal to generated unit-operation names, repeated "
+        "labels, the empty path: build_total (the renaming loop always finds a free name: pigeonhole on injective names), "
+        "own_leaf (every stream gets a leaf of its own directly below the zone its label names; no two streams share one), "
+        "conservation (after collection a zone holds stream i exactly once if it lies on the path from the root to i's leaf and "
+        "not at all otherwise: invariant of the builder + induction over the depth with a counting argument), "
+        "root_holds_all_once, shared_only_along_a_path (no sharing between siblings). The invariant proof is what validates the "
+        "second fix: commit (label nodes are created before any generated leaf). NOT modelled: label text splitting/stripping and "
+        "the (zone, name) sort (done by the harness with the same key), the user-tree path, duties, utility copies - decided by "
+        "the oracle on prepare_problem: 600+ random label sets per run x with/without user tree; every zone's multiset of "
+        "streams vs the streams labelled into it (independent label resolver), parent = union of children, independent utility "
+        "objects per zone. Correspondence: zone of every stream, set of tree nodes and content of every zone, 390+ cases per run.",
+   technique="Lean 4 proof (builder invariant by induction over the streams + counting induction over tree depth) + correspondence testing + multiset oracle on prepare_problem",
+   design="§6 C10"),
  "C17": dict(
    text="Partial proof (Lean 4) about the code-shaped model of _rdp (stack ranges as a recursion with fuel = number of points, "
         "first-maximum scan with strict >, zero-length chord `continue`) for polylines of ANY length and ANY tolerance: rdp_ends "
